@@ -889,3 +889,15 @@ Definition unseg (l : list (list tree + N)) : list (tree + N) :=
 
 (* set equality of lists, as mutual inclusion *)
 Definition SameSet {A : Type} (l1 l2 : list A) : Prop := forall x, In x l1 <-> In x l2.
+
+(* a segment of the module and its rewriting: a run keeps its imports, another
+   item is itself *)
+Definition run_rel (cmp : tree -> tree -> comparison) (g : granularity)
+           (s : list tree + N) (o : list (list tree) + N) : Prop :=
+  match s, o with
+  | inl run, inl groups =>
+      forallb ast_shape run = true -> BadClass cmp g run = false ->
+      SameSet (Leaves (concat groups)) (Leaves run)
+  | inr a, inr b => a = b
+  | _, _ => False
+  end.
